@@ -9,9 +9,11 @@ ASSUMPTIONS = [
     "answer (gas left, refund counter, failure flag, the code's own OLT transfers, self-destructed accounts) with 0 <= gas left <= gas given; "
     "the harness checks on every executed transaction that the implementation's answer lies inside that hypothesis",
     "well-formed inputs: Fee.Gas is an int64, the block gas counter is a Go int (<= 2^63-1), data byte counts are non-negative",
-    "the per-transaction state-object cache of CommitStateDB is cleared by Finalise after every transaction (vm/statedb.go), so the EVM reads the "
-    "ledger through keeper.GetAccount at every transaction; modelled as such, tied by the correspondence (mixed native/OLVM blocks) and by reading "
-    "the real keeper and a real CommitStateDB after every transaction",
+    "the application keeps ONE CommitStateDB per block; its live-object cache is emptied by Finalise after every OLVM transaction, executed or "
+    "refused at a pre-check (vm/evm.go Apply), so the EVM reads the ledger through keeper.GetAccount at every transaction; modelled as such and tied "
+    "by the correspondence: in-block sequences (OLVM of A failing its pre-check after passing Validate, native credits of A, CheckTx traffic, then "
+    "OLVM from/to A) are generated in the directed scenario and in the random stream, and the real keeper and a fresh CommitStateDB are read after "
+    "every transaction",
     "internal OLT transfers made by contract code (inner CALL with value, SELFDESTRUCT) are part of the oracle answer; the harness derives them "
     "from the semantics of its own eight tiny programs",
     "negative OLVM gas price / value are outside the generated inputs (Validate refuses them: price < minimum fee, Amount.IsValid); negative native amounts are generated and must be refused",
